@@ -138,15 +138,18 @@ theorem ploop_simple {w h0 : Nat} (inp : Input) (op : Nat) (fom : UInt8) (hw : 0
         flat w h0 s' = growN (flat w h0 s) n (simpleVal op s.mix s.c2 w) ∧
         s'.pos = s.pos ∧ s'.insertmix = s.insertmix ∧ s'.c1 = s.c1 ∧ s'.c2 = s.c2 ∧ s'.mix = s.mix ∧
         s'.mask = s.mask ∧ s'.mixmask = s.mixmask ∧ s'.bicolour = s.bicolour ∧ s'.count = 0 ∧
-        s'.lastop = s.lastop := by
+        s'.lastop = s.lastop ∧ (0 < s.x ∨ 0 < n → 0 < s'.x) := by
   induction n with
   | zero =>
     intro G s h hc _ hG
     cases G with
     | zero => omega
     | succ G =>
-      refine ⟨s, ?_, h, rfl, rfl, rfl, rfl, rfl, rfl, rfl, rfl, rfl, hc, rfl⟩
-      unfold ploop; simp [hc]
+      refine ⟨s, ?_, h, rfl, rfl, rfl, rfl, rfl, rfl, rfl, rfl, rfl, hc, rfl, ?_⟩
+      · unfold ploop; simp [hc]
+      · intro hx; rcases hx with hx | hx
+        · exact hx
+        · omega
   | succ n ih =>
     intro G s h hc hroom hG
     cases G with
@@ -165,9 +168,9 @@ theorem ploop_simple {w h0 : Nat} (inp : Input) (op : Nat) (fom : UInt8) (hw : 0
       have he1 : emitted w h0 t1 = emitted w h0 t + 1 := by
         have := congrArg List.length hf1
         simpa [flat_length] using this
-      obtain ⟨s', hs', hi', hfl', q1, q2, q3, q4, q5, q6, q7, q8, q9, q10⟩ :=
+      obtain ⟨s', hs', hi', hfl', q1, q2, q3, q4, q5, q6, q7, q8, q9, q10, q11⟩ :=
         ih G (s := t1) h1 (by simp [t1]; omega) (by omega) (by omega)
-      refine ⟨s', ?_, hi', ?_, ?_, ?_, ?_, ?_, ?_, ?_, ?_, ?_, q9, ?_⟩
+      refine ⟨s', ?_, hi', ?_, ?_, ?_, ?_, ?_, ?_, ?_, ?_, ?_, q9, ?_, fun _ => q11 (Or.inl (by simp [t1]))⟩
       · unfold ploop pstep
         simp only [show s.count > 0 by omega, if_true, hnl, Outcome.bind, hstep]
         exact hs'
